@@ -147,6 +147,57 @@ def run_verus_unit(prop, unit_name, tier):
     return res, vr
 
 
+def shared_prefix_names(prop, unit_name):
+    """names of the function-VCs that come from the LEADING `//@ include` files of a unit (the vocabulary shared between
+    the units of one property).  Computed by verifying the unit truncated after its leading includes; used only to avoid
+    counting one function twice in the evidence.  Returns (set of names without crate prefix, [include files])."""
+    tmpl = os.path.join(ROOT, "specs", unit_name + ".rs")
+    lines = open(tmpl).read().split("\n")
+    out, incs, seen_verus = [], [], False
+    for ln in lines:
+        st = ln.strip()
+        if not seen_verus:
+            out.append(ln)
+            if st.startswith("verus!"):
+                seen_verus = True
+            continue
+        if st.startswith("//@ include "):
+            inc = st[len("//@ include "):].strip()
+            incs.append(inc)
+            out.append("//@ include " + os.path.join(ROOT, "specs", inc))
+            continue
+        if st == "" or st.startswith("//") and not st.startswith("//@") or st.startswith("global "):
+            out.append(ln)
+            continue
+        break
+    if not incs:
+        return set(), []
+    while out and not out[-1].strip().startswith("//@ include "):
+        out.pop()   # comments that belonged to the first item after the includes
+    out += ["} // verus!", "fn main() {}", ""]
+    outdir = os.path.join(OUT, prop)
+    tp = os.path.join(outdir, unit_name + "_prefix.tpl.rs")
+    up = os.path.join(outdir, unit_name + "_prefix_unit.rs")
+    with open(tp, "w") as f:
+        f.write("\n".join(out))
+    gen.Source.cache.clear()
+    try:
+        gen.generate(REPO, tp, up)
+    except Exception:
+        return set(), incs
+    p = subprocess.run(["verus", up, "--output-json", "--time", "--triggers-mode", "silent", "--num-threads", "14"],
+                       stdout=subprocess.PIPE, stderr=subprocess.PIPE, text=True, cwd=outdir)
+    try:
+        js = json.loads(p.stdout[p.stdout.index("{"):])
+    except Exception:
+        return set(), incs
+    names = set()
+    for mod in js.get("times-ms", {}).get("smt", {}).get("smt-run-module-times", []):
+        for fb in mod.get("function-breakdown", []):
+            names.add(fb["function"].split("::", 1)[-1])
+    return names, incs
+
+
 ERR_RE = re.compile(r"^(error|warning|note)(\[[A-Z0-9]+\])?: (.*)$")
 LOC_RE = re.compile(r"^\s*--> (.*?):(\d+):(\d+)")
 
